@@ -39,7 +39,7 @@ RULE = (
 )
 PROBES = ["gate_after_reset", "random_measurement_on_photon", "control_on_photon", "wrapper_len_ge3",
           "forced_value_impossible", "full_branch_sweep", "sampled_branches", "initial_state_used",
-          "inserted_op", "measurement_prob_near_deterministic", "compiler_reused_after_other_circuit", "edited_after_compile"]
+          "inserted_op", "invalid_setting_refused", "initial_state_object_reused", "measurement_prob_near_deterministic", "compiler_reused_after_other_circuit", "edited_after_compile"]
 REAL = ["graphiq.backends.compiler_base.CompilerBase.compile", "StabilizerCompiler.compile_one_gate",
         "DensityMatrixCompiler.compile_one_gate", "graphiq.backends.stabilizer (tableau functions)",
         "graphiq.backends.density_matrix (state, functions)", "graphiq.circuit.circuit_dag.CircuitDAG", "graphiq.circuit.ops"]
@@ -120,10 +120,19 @@ def gen_case(run_seed, tier):
         splits = [(e, total - e) for e in range(1, 4) if 0 <= total - e <= 4 and (e, total - e) != (ne, np_)]
         ne2, np2 = sz.choice(splits) if splits and sz.random() < 0.7 else (sz.randint(1, 3), sz.randint(0, 3))
         case["sibling"] = {"ne": ne2, "np": np2, "nc": nc, "history": gen_program(wl, ne2, np2, nc, sz.randint(1, 8), False, None, 0.3)}
+    if init is not None and sz.random() < 0.5:
+        case["init_shared"] = True  # one initial-state object per backend for every compile of the run
+    if sz.random() < 0.2:
+        case["bad_setting"] = sz.randrange(1000)  # fault: a refused assignment of an invalid measurement setting before every compile
     return case
 
 
 def simplify(case):
+    for key in ("init_shared", "bad_setting"):
+        if case.get(key) is not None:
+            c = dict(case)
+            c.pop(key)
+            yield c
     if case.get("post_edit"):
         c = dict(case)
         c.pop("post_edit")
@@ -207,6 +216,9 @@ class RecDM(_Rec, DensityMatrixCompiler):
     pass
 
 
+BAD_SETTINGS = ["one", 2, None, "deterministic", -1, 0.5]
+
+
 def initial_states(case):
     """(psi0, factory(backend) -> QuantumState) or (None, None)"""
     if not case.get("init"):
@@ -258,12 +270,30 @@ def execute(ctx, case, circ, model, backend, det, bits, psi0, factory, rnd_fallb
         comp = RecStab() if backend == "stab" else RecDM()
     comp.recorded = []
     comp.measurement_determinism = det
+    if case.get("bad_setting") is not None:
+        # fault: an assignment of an invalid setting is refused; the compiler object is used on with the valid one
+        ctx.fault("rejected_edit")
+        try:
+            comp.measurement_determinism = BAD_SETTINGS[case["bad_setting"] % len(BAD_SETTINGS)]
+            ctx.probe("invalid_setting_accepted")
+        except core.HarnessError:
+            raise
+        except Exception:
+            ctx.probe("invalid_setting_refused")
     # under a forced setting the RNG should not matter: if the backend consults it anyway, the scheduler answers with
     # the outcome opposite to the forced one (adversarial but legal), so that a setting that is silently ignored shows
     script = OutcomeScript(bits, fallback=rnd_fallback if rnd_fallback is not None else ((1 - det) if det in (0, 1) else 0))
     init = None
     if factory is not None:
-        init = factory(backend)
+        shared = case.get("_init_shared")
+        if shared is not None and backend in shared:
+            # the caller keeps one initial-state object and hands it to every compile of the run
+            init = shared[backend]
+            ctx.probe("initial_state_object_reused")
+        else:
+            init = factory(backend)
+            if shared is not None and init is not None:
+                shared[backend] = init
         if init is None:
             ctx.probe("initial_state_skipped")
             return True, 0, []
@@ -371,6 +401,9 @@ def run_case(case):
     psi0, factory = initial_states(case)
     if factory is not None:
         ctx.probe("initial_state_used")
+    case = dict(case)
+    if case.get("init_shared"):
+        case["_init_shared"] = {}
     specs = [st[1] for st in case["history"]]
     # probes on program shape
     seen_meas = set()
